@@ -141,7 +141,7 @@ def find_stored_bed(args):
     return None
 
 
-def store_bed(bed, args):
+def store_bed(bed, args, genedb_mtime=None):
     genedb_filename = os.path.abspath(args.genedb)
     bed = os.path.abspath(bed)
 
@@ -149,7 +149,8 @@ def store_bed(bed, args):
         converted_beds = json.load(f_in)
     converted_beds[genedb_filename] = {
         'bed_filename': bed,
-        'reference_mtime': os.path.getmtime(genedb_filename),
+        # the time stamp of the database the BED was made from, taken before it was read
+        'reference_mtime': os.path.getmtime(genedb_filename) if genedb_mtime is None else genedb_mtime,
         'bed_mtime': os.path.getmtime(bed)
     }
     save_config(args.bed_config_path, converted_beds)
@@ -264,8 +265,10 @@ def find_annotation(aligner, args):
             bed_fname = find_stored_bed(args)
             if bed_fname is None:
                 bed_fname = os.path.join(args.output, os.path.splitext(os.path.basename(args.genedb))[0] + ".bed")
+                # if the database is replaced while it is being exported, the stored entry must not match the new version
+                genedb_mtime = os.path.getmtime(os.path.abspath(args.genedb))
                 db2bed(args.genedb, bed_fname)
-                store_bed(bed_fname, args)
+                store_bed(bed_fname, args, genedb_mtime)
 
         return os.path.abspath(bed_fname)
 
